@@ -192,6 +192,7 @@ func bmOf(s map[uint32]bool, emptyAsNil bool) *roaring.Bitmap {
 
 func c16hist(c *Ctx) {
 	zap.VerifSetVecMonitorFreq(time.Hour) // the timer is parked: expiry is an explicit event
+	c16clustered(c)
 	maxLen := c.N(5, 6)
 	rng := c.Rng(0)
 	// fixture: one segment with a vector field, persisted once
@@ -921,3 +922,164 @@ func c18engineCancel(c *Ctx, id string, p *c18plan, ins []segment.Segment, bm []
 // engineQuiescentKeepInputs: like engineQuiescent; the (unsearched, in-memory)
 // inputs hold no native index, so anything alive was leaked by the merge.
 func engineQuiescentKeepInputs(c *Ctx, tag string) { engineQuiescent(c, tag) }
+
+// c16clustered: part A on a clustered index (>= 1000 vectors, the engine's default
+// search parameters: the result is approximate, but it is a function of the query,
+// k, the eligible set and the exclusion bitmap alone). Every kind of search is first
+// answered by a freshly opened segment (cold cache, no earlier search); a random
+// history of those searches and expiry passes on one more opening of the segment
+// must give the same answers.
+func c16clustered(c *Ctx) {
+	n := c.N(16, 160)
+	for j := 0; j < n; j++ {
+		if !c.Mine(j) {
+			continue
+		}
+		rng := c.Rng(5000 + j)
+		b := model.Gen(rng, "tall", model.GenOpts{Vec: true, NoBig: true, MaxTerms: 3})
+		m := model.Build(b)
+		field := ""
+		for f, vm := range m.Vec {
+			if len(vm.Entries) >= 1000 && (field == "" || f < field) {
+				field = f
+			}
+		}
+		id := fmt.Sprintf("K%d", j)
+		if field == "" {
+			continue
+		}
+		vm := m.Vec[field]
+		if !c.Case(id, map[string]interface{}{"docs": len(b.Docs), "field": field, "vectors": len(vm.Entries), "fp": fpString(b.Fingerprint())}) {
+			continue
+		}
+		zx.SetChunkMode(1026)
+		path := c.Scratch.Path("c16k")
+		guard(c.R, id, func() {
+			defer os.Remove(path)
+			s, _, err := zx.Build(b)
+			if err != nil {
+				c.R.Fail("build-err", "%s: %v", id, err)
+				return
+			}
+			err = zx.Persist(s, path)
+			s.Close()
+			if err != nil {
+				c.R.Fail("persist-err", "%s: %v", id, err)
+				return
+			}
+			var vecDocs []uint32
+			seen := map[uint32]bool{}
+			for _, e := range vm.Entries {
+				if !seen[e.Doc] {
+					seen[e.Doc] = true
+					vecDocs = append(vecDocs, e.Doc)
+				}
+			}
+			half := map[uint32]bool{}
+			for k, d := range vecDocs {
+				if k%2 == 1 {
+					half[d] = true
+				}
+			}
+			q := append([]float32(nil), vm.Entries[rng.Intn(len(vm.Entries))].Vec...)
+			// kinds of search: unfiltered with small and full k; filtered with a sparse and a
+			// dense eligible set; each with no exclusions and with half of the documents excluded
+			type kind struct {
+				name string
+				vq   vecQuery
+				ex   map[uint32]bool
+			}
+			var kinds []kind
+			for _, ex := range []map[uint32]bool{nil, half} {
+				exName := "none"
+				if ex != nil {
+					exName = "half"
+				}
+				kinds = append(kinds,
+					kind{"search k=10 except " + exName, vecQuery{q: q, k: 10}, ex},
+					kind{"search k=all except " + exName, vecQuery{q: q, k: int64(len(vm.Entries))}, ex})
+				for _, every := range []int{97, 3} {
+					var el []uint64
+					for k, d := range vecDocs {
+						if k%every == 0 && !ex[d] {
+							el = append(el, uint64(d))
+						}
+					}
+					if len(el) == 0 {
+						continue
+					}
+					kinds = append(kinds, kind{fmt.Sprintf("filtered search 1/%d k=all except %s", every, exName), vecQuery{q: q, k: int64(len(el)), filtered: true, eligible: el}, ex})
+				}
+			}
+			sorted := func(ps []vecPair) []vecPair {
+				out := append([]vecPair(nil), ps...)
+				sort.Slice(out, func(a, b int) bool {
+					if out[a].doc != out[b].doc {
+						return out[a].doc < out[b].doc
+					}
+					return out[a].score < out[b].score
+				})
+				return out
+			}
+			same := func(a, b []vecPair) bool {
+				if len(a) != len(b) {
+					return false
+				}
+				for k := range a {
+					if a[k] != b[k] {
+						return false
+					}
+				}
+				return true
+			}
+			refs := make([][]vecPair, len(kinds))
+			for k, kd := range kinds {
+				seg, err := zx.Open(path)
+				if err != nil {
+					c.R.Fail("open-err", "%s: %v", id, err)
+					return
+				}
+				got, ok := searchOnce(c.R, id+" first "+kd.name, seg.(segment.VectorSegment), field, bmOf(kd.ex, false), kd.vq)
+				seg.Close()
+				if !ok {
+					return
+				}
+				refs[k] = sorted(got)
+			}
+			seg, err := zx.Open(path)
+			if err != nil {
+				c.R.Fail("open-err", "%s: %v", id, err)
+				return
+			}
+			defer seg.Close()
+			vs := seg.(segment.VectorSegment)
+			hist := ""
+			for step := 0; step < 14; step++ {
+				if step > 0 && rng.Intn(5) == 0 {
+					for p := 0; p < 4; p++ {
+						zap.VerifVecCacheExpire(seg)
+					}
+					hist += "expire; "
+					c.R.Inc("c16_clustered_expiries", 1)
+					continue
+				}
+				k := rng.Intn(len(kinds))
+				kd := kinds[k]
+				got, ok := searchOnce(c.R, id+" "+kd.name, vs, field, bmOf(kd.ex, false), kd.vq)
+				if !ok {
+					return
+				}
+				if g := sorted(got); !same(g, refs[k]) {
+					c.R.Fail("depends-on-history", "%s: %s after [%s] returns %d hits, on a freshly opened segment %d hits (or other scores): the answer depends on earlier searches", id, kd.name, hist, len(g), len(refs[k]))
+					return
+				}
+				hist += kd.name + "; "
+				c.R.Inc("c16_clustered_searches_compared", 1)
+			}
+			c.R.Inc("c16_clustered_histories", 1)
+		})
+		engineQuiescent(c, id)
+		c.DistinctN(1)
+		c.End()
+	}
+}
